@@ -55,6 +55,12 @@ def _norm(d: dict) -> dict:
             out[k] = None
         if k == "tl_sec" and isinstance(out[k], list):
             out[k] = [None if i == "" else i for i in out[k]]
+        if k == "ll_sec" and isinstance(out[k], list):
+            out[k] = [[None if i == "" else i for i in inner] for inner in out[k]]
+        if k in ("ll_bytes", "ld_ch", "ll_sec") and out[k] is None:
+            out[k] = []
+        if k == "dl_bytes" and out[k] is None:
+            out[k] = {}
     return out
 
 
@@ -128,9 +134,10 @@ def scalars_symbolic(i: Optional[int], f: Optional[float], s: Optional[str], b: 
 @obligation(prop="C02", sites=("tree", "reload", "glue"), encodes=ENC + [
     "cincoconfig.fields.list_field.ListField.to_basic", "cincoconfig.fields.list_field.ListField.to_python",
     "cincoconfig.fields.dict_field.DictField.to_basic", "cincoconfig.fields.dict_field.DictField.to_python"],
-            stubs=("FakeFS", "MemFormat"), budget={"quick": 240, "thorough": 600},
+            stubs=("FakeFS", "MemFormat"), budget={"quick": 480, "thorough": 900},
             what="typed lists and dicts: List(Int) / Dict(Str,Int) with symbolic contents (n<=2), List(Bytes), "
-                 "Dict(Str,Bytes), List(Secure), List(Challenge), List(Schema with Bytes+Secure), unset and empty "
+                 "Dict(Str,Bytes), List(Secure), List(Challenge), List(Schema with Bytes+Secure), List(List(Bytes)), "
+                 "Dict(Str,List(Bytes hex)), List(Dict(Str,Challenge)), List(List(Secure)), unset and empty "
                  "containers: reload reproduces every item (binary / hashed / encrypted items included)")
 def containers(n: int, x: int, y: int, vi: int, state: int) -> bool:
     """
@@ -155,15 +162,24 @@ def containers(n: int, x: int, y: int, vi: int, state: int) -> bool:
     schema.tl_items = ListField(item)
     schema.untyped = ListField()
     schema.untyped_d = DictField()
+    # typed containers NESTED in typed containers whose leaves have an on-disk form
+    schema.ll_bytes = ListField(ListField(BytesField()))
+    schema.dl_bytes = DictField(StringField(), ListField(BytesField(encoding="hex")))
+    schema.ld_ch = ListField(DictField(StringField(), ChallengeField("md5")))
+    schema.ll_sec = ListField(ListField(SecureField(method="xor")))
 
     def fill(cfg):
         if state == 0:
             return  # everything unset
         if state == 1:
-            for k in ("tl_int", "tl_bytes", "tl_hex", "tl_sec", "tl_ch", "tl_items", "untyped"):
+            for k in ("tl_int", "tl_bytes", "tl_hex", "tl_sec", "tl_ch", "tl_items", "untyped", "ll_bytes", "ld_ch", "ll_sec"):
                 cfg[k] = []
-            cfg.td_int, cfg.td_bytes, cfg.untyped_d, cfg.td_byteskey = {}, {}, {}, {}
+            cfg.td_int, cfg.td_bytes, cfg.untyped_d, cfg.td_byteskey, cfg.dl_bytes = {}, {}, {}, {}, {}
             return
+        cfg.ll_bytes = [[blob, b"\xfe"], []]
+        cfg.dl_bytes = {"k": [blob], "e": []}
+        cfg.ld_ch = [{"u": text}]
+        cfg.ll_sec = [[], [text, "pw2"]]
         cfg.tl_int = [x, y][:n]
         cfg.td_int = {k: v for k, v in (("a", x), ("b", y))[:n]}
         cfg.tl_bytes = [blob, b"\xff"]
@@ -313,7 +329,7 @@ for _fi in range(5):
 
 
 @obligation(prop="C02", sites=("file",), encodes=["cincoconfig.core.Config.save", "cincoconfig.core.Config.load"],
-            stubs=("FakeFS",), budget={"quick": 400, "thorough": 800},
+            stubs=("FakeFS",), budget={"quick": 600, "thorough": 800},
             what="file route (save then load) for documents of every length residue: a string value padded to n "
                  "characters, n symbolic in 0..255, binary formats bson and pickle (codecs concrete, untraced)")
 def file_route_every_length(n: int, use_pickle: bool) -> bool:
